@@ -665,8 +665,34 @@ class Verifier(ExprMixin, CallMixin, BuiltinMixin, StmtMixin, Executor):
         for r in self.apply_contract_env(st, c, env):
             yield r
 
+    def box_record(self, st, sv, cname):
+        """an engine-level tuple used where a structure-table record is expected: a fresh record with those fields"""
+        fields = self.world.tuple_records[cname]
+        items = sv.py
+        st, a = self.alloc(st, cname) if cname in self.world.class_ids else (st, None)
+        if a is None:
+            self.world.class_ids[cname] = len(self.world.class_ids) + 1
+            st, a = self.alloc(st, cname)
+        for f, x in zip(fields, items):
+            fty = self.world.field_type(cname, f)
+            if x.is_py and isinstance(x.py, tuple) and fty.kind == 'tuple':
+                st, x = self.new_list(st, list(x.py), self.seq_elem_type(fty), kind='tuple') if x.py else \
+                    self.new_list(st, [], self.seq_elem_type(fty), kind='tuple')
+            st = self.write_field(st, SV(a, ObjT(cname)), f, x)
+        if self.world.field_type(cname, '_len') is not None:
+            st = self.write_field(st, SV(a, ObjT(cname)), '_len', mk(len(items)))
+        return st, SV(a, ObjT(cname))
+
     def apply_contract_env(self, st, c, env, result_override=None):
-        # coerce engine tuples given for heap-typed params etc. is not needed: spec works on SVs
+        # engine-level tuples given where the signature names a structure-table record are materialised
+        recs = getattr(self.world, 'tuple_records', {})
+        for n, v in list(env.items()):
+            if isinstance(v, SV) and v.is_py and isinstance(v.py, tuple) and n in c.sig:
+                t = parse_type(c.sig[n]) if not c.sig[n].startswith('=') else None
+                t = t.args[0] if t is not None and t.kind == 'opt' else t
+                if t is not None and t.kind == 'obj' and t.args[0] in recs:
+                    env = dict(env)
+                    st, env[n] = self.box_record(st, v, t.args[0])
         pre = st
         # 1. precondition obligations
         for i, r in enumerate(c.requires):
